@@ -781,6 +781,7 @@ class Mesh:
     @classmethod
     def from_dict(cls, data):
 
+        data = dict(data)  # do not modify the argument
         if 'p' not in data or 't' not in data:
             raise ValueError("Dictionary must contain keys 'p' and 't'.")
         else:
